@@ -1,0 +1,44 @@
+//! Verification hooks (only compiled with the cargo feature `verif`).
+//!
+//! Crash points: calls placed right before and right after every durable write. By default they do
+//! nothing. A verification harness can install an observer (in-process crash injection by unwinding),
+//! and a process can be told to abort at its n-th crash point with `TEOS_VERIF_CRASH_AT=n`
+//! (kill -9 equivalent for harnesses that drive the real binaries).
+
+use std::sync::atomic::{AtomicUsize, Ordering};
+
+static HOOK: AtomicUsize = AtomicUsize::new(0);
+static COUNT: AtomicUsize = AtomicUsize::new(0);
+static ENV_AT: AtomicUsize = AtomicUsize::new(usize::MAX);
+
+/// Installs (or removes) the crash point observer.
+pub fn set_crash_hook(hook: Option<fn(&'static str)>) {
+    HOOK.store(hook.map_or(0, |f| f as usize), Ordering::SeqCst);
+}
+
+/// Number of crash points passed so far by this process.
+pub fn crash_points_passed() -> usize {
+    COUNT.load(Ordering::SeqCst)
+}
+
+/// Marks a point where the process could die between two durable effects.
+pub fn crash_point(tag: &'static str) {
+    let n = COUNT.fetch_add(1, Ordering::SeqCst) + 1;
+    let mut at = ENV_AT.load(Ordering::Relaxed);
+    if at == usize::MAX {
+        at = std::env::var("TEOS_VERIF_CRASH_AT")
+            .ok()
+            .and_then(|v| v.parse::<usize>().ok())
+            .unwrap_or(0);
+        ENV_AT.store(at, Ordering::Relaxed);
+    }
+    if at != 0 && n == at {
+        eprintln!("verif: aborting at crash point #{n} ({tag})");
+        std::process::abort();
+    }
+    let h = HOOK.load(Ordering::SeqCst);
+    if h != 0 {
+        let f: fn(&'static str) = unsafe { std::mem::transmute(h) };
+        f(tag);
+    }
+}
